@@ -182,7 +182,9 @@ class C03(Prop):
         "every reader, the sniffer and load equal the model, exceptions included. soft (everything else): a correspondence "
         "failure only when pewlib and the model both import and differ; a difference in whether they import is counted in the "
         "evidence (feature text:soft:import-differs) and is not a violation, because a rewrite of the readers that keeps every "
-        "export importing exactly may change it",
+        "export importing exactly may change it; header rows of unequal number or length (three header lines, one row without its "
+        "trailing delimiter or with an extra field) are soft as well (DESIGN 13.2: broadcasting of masks raises, a zip over the rows "
+        "stops at the shortest — harmless rewrite C03-r4)",
     ]
 
     def generate(self, rng, tier):
@@ -579,6 +581,8 @@ class C03(Prop):
             return outcome(impl, model, impl, hyp=False, features=feats)
         skipped = sorted(k for k, v in verdicts.items() if v == "import-differs")
         feats.add("text:soft:import-differs" if skipped else "text:soft:equal")
+        if skipped and set(edits) & gen_thermo.HEADER_SHAPE_EDITS:
+            feats.add("text:header-rows-of-unequal-length:import-differs (recorded only)")
         return outcome(impl, impl, impl, hyp=False, features=feats,
                        note=("pewlib and the model differ in whether they import: " + ", ".join(skipped)) if skipped else "")
 
